@@ -41,8 +41,10 @@ SEL = {"A": ("f > a", "a", lambda x: x + 1), "B": ("f > b", "b", lambda x: (x + 
        "D": ("f > a", "a", lambda x: x + 1), "E": ("f > a", "a", lambda x: x + 1),
        # T probes through a tag only ($v:@W selects c, the one variable carrying it): next to a named capture of another
        # thread the union of both must be instrumented
-       "T": ("f > $v:@W", "v", lambda x: (x + 1) * 2 + 1)}
-ARG = {"A": 1, "B": 10, "C": 100, "D": 1000, "E": 2000, "T": 30}
+       "T": ("f > $v:@W", "v", lambda x: (x + 1) * 2 + 1),
+       # S supplies the declared-only variable d through an overriding probe (its own events are not looked at)
+       "S": ("f > d", "d", lambda x: 5)}
+ARG = {"A": 1, "B": 10, "C": 100, "D": 1000, "E": 2000, "T": 30, "S": 40}
 PATH = os.path.join(os.path.dirname(os.path.dirname(os.path.abspath(__file__))), "worlds", "thrworld.py")
 COUNT = [0]
 
@@ -66,8 +68,11 @@ def run_one(S, tids, plan):
     def body(t):
         def run():
             try:
-                with probing(SEL[t][0], env={"f": f}) as p:
-                    p.subscribe(lambda d, t=t: res[t]["events"].append(sorted([k, v] for k, v in d.items())))
+                with probing(SEL[t][0], env={"f": f}, overridable=(t == "S")) as p:
+                    if t == "S":
+                        p.override(5)
+                    else:
+                        p.subscribe(lambda d, t=t: res[t]["events"].append(sorted([k, v] for k, v in d.items())))
                     res[t]["rets"].append(f(ARG[t]))
                     res[t]["rets"].append(f(ARG[t] + 1))
             except BaseException as ex:
